@@ -73,7 +73,11 @@ def l_agree( ctx ):
         # producer -> parser: every layout variant the producer can emit for this service must be accepted by the parser registered for
         # this service (or, for variants that belong to a sibling service sharing the dispatch branch, by that sibling's parser)
         siblings = [ x for x in service_layouts( ctx ) if x['cls'] == e['cls'] and x['sel'] is not None and x['sel'][0] is e['sel'][0] ]
+        seen_atoms = set()
         for p in e['P']:
+            if ( p.atoms, any( k[0] == 'large' for k in p.lits )) in seen_atoms:
+                continue
+            seen_atoms.add(( p.atoms, any( k[0] == 'large' for k in p.lits )))
             here = any( seq_match( p.atoms, q.atoms )[0] for q in e['Q'] )
             if here:
                 res.ok( e['src'], L( p.trace[0][0] if p.trace and isinstance( p.trace[0][0], int ) else e['pfn'].lineno ),
@@ -91,4 +95,426 @@ def l_agree( ctx ):
                      '%s: producer field %d (%s) is not what the parser expects there' % ( label, i, pa ),
                      'producer layout [%s] is not accepted; closest parser layout [%s]: produced bytes re-parse to different fields' % ( show_seq( p ), show_seq( best )),
                      func=e['cls'] + '.produce' )
+    return res
+
+
+# ---------------------------------------------------------------------------------------- T-SEGMENTS (C01)
+
+PARSER = 'server/enip/parser.py'
+
+
+def segment_paths( g, pseg, path='seg' ):
+    """{ opcode: [ ( atoms, lits ) ] } for the EPATH segment dispatch state: follow each opcode edge until the move into ..segment"""
+    pl = ParserLayout( g )
+    out = {}
+    def walk( n, atoms, lits, acc, depth=0 ):
+        if depth > 12:
+            raise AnalysisError( 'EPATH segment path too long' )
+        variants, ours = pl.node_variants( n, path )
+        for a, l in variants:
+            atoms2 = atoms + a
+            by = {}
+            order = []
+            for k, t in n.edges:
+                by.setdefault( k, [] ).append( t )
+                if k not in order: order.append( k )
+            if not n.edges:
+                acc.append(( atoms2, dict( lits ), 'dead-end' ))
+            for k in order:
+                neg = {}
+                for t in by[k]:
+                    if isinstance( t, Decide ):
+                        if t.cls == 'move_if' and t.kw.get( 'destination' ) == '..segment':
+                            acc.append(( atoms2, dict( lits, **neg ), 'moved' ))
+                            break
+                        tgt = t.state if isinstance( t.state, Node ) else None
+                        nm = str( t.name )
+                        if tgt is not None:
+                            walk( tgt, atoms2, dict( lits, **dict( neg, **{ nm: True } )), acc, depth + 1 )
+                        neg[nm] = False
+                    elif isinstance( t, Node ):
+                        walk( t, atoms2, dict( lits, **neg ), acc, depth + 1 )
+    for k, t in pseg.edges:
+        if isinstance( k, int ) and isinstance( t, Node ):
+            acc = []
+            walk( t, (), {}, acc )
+            out[k] = acc
+    return out
+
+
+@rule( 'T-SEGMENTS', props=( 'C01', 'C14' ), floor=31 )
+def t_segments( ctx ):
+    """EPATH: SEGMENTS opcodes, the parser's per-opcode transition table and EPATH.produce agree with the CIP segment encodings (8/16/32-bit logical, symbolic, port) and with each other"""
+    res = Result( 'T-SEGMENTS' )
+    g = grammar_of( ctx )
+    src = ctx.src( PARSER )
+    segs = g.class_const( 'EPATH', 'SEGMENTS' )
+    if not isinstance( segs, dict ):
+        raise AnalysisError( 'EPATH.SEGMENTS does not fold to a dict' )
+    segnode = src.class_assign( 'EPATH', 'SEGMENTS' )
+    want = dict( spec.LOGICAL_SEGMENTS, symbolic=spec.SYMBOLIC_SEGMENT, port=0x00 )
+    for k, v in sorted( want.items() ):
+        if segs.get( k ) == v:
+            res.ok( src, segnode, 'SEGMENTS[%r] = 0x%02X' % ( k, v ))
+        else:
+            res.bad( src, segnode, 'SEGMENTS[%r] = %r' % ( k, segs.get( k )), 'CIP segment opcode of %s is 0x%02X' % ( k, v ))
+    m = g.machines.get( 'EPATH' )
+    if m is None:
+        raise AnalysisError( 'EPATH machine not extracted' )
+    pseg = [ n for n in g.nodes( m ) if n.cls == 'octets_noop' and n.name == 'type' ]
+    if len( pseg ) != 1:
+        raise AnalysisError( 'EPATH segment dispatch state not found' )
+    pseg = pseg[0]
+    table = segment_paths( g, pseg )
+    def show( acc ):
+        return [ ' '.join( show_atom( a ) for a in atoms ) + ( ' if ' + ','.join( k for k, v in sorted( l.items() ) if v ) if any( l.values() ) else '' ) for atoms, l, end in acc ]
+    B, H, I = spec.fmt_canon( 'B' ), spec.fmt_canon( '<H' ), spec.fmt_canon( '<I' )
+    # --- logical segments
+    for kind, base in sorted( spec.LOGICAL_SEGMENTS.items() ):
+        widths = [ ( 0, 1, B ), ( 1, 2, H ) ] + ( [ ( 2, 2, I ) ] if kind == 'element' else [] )
+        for off, drop, fmt in widths:
+            op = base + off
+            acc = table.get( op )
+            L_ = L( pseg.site[1] )
+            if not acc:
+                res.bad( src, L_, 'EPATH parser has no transition for opcode 0x%02X (%s, %d-bit)' % ( op, kind, 8 << off ),
+                         'a %d-bit %s segment the producer can emit cannot be parsed' % ( 8 << off, kind ))
+                continue
+            atoms, lits, end = acc[0]
+            good = len( acc ) == 1 and end == 'moved' and len( atoms ) == 2 and atoms[0] == ( 'K', drop ) \
+                and atoms[1][0] == 'F' and atoms[1][1] == fmt and atoms[1][2].endswith( kind )
+            if good:
+                res.ok( src, L_, 'opcode 0x%02X: drop %d, %s -> .%s' % ( op, drop, fmt[1], kind ))
+            else:
+                res.bad( src, L_, 'opcode 0x%02X parses as [%s]' % ( op, '; '.join( show( acc ))),
+                         'a %d-bit %s segment is opcode%s then a %s value stored at .%s' % ( 8 << off, kind, ', pad byte,' if drop == 2 else ',', fmt[1], kind ))
+    # --- symbolic
+    acc = table.get( spec.SYMBOLIC_SEGMENT, [] )
+    shapes = sorted( show( acc ))
+    ok = len( acc ) == 2 and all( a[0][0] == ( 'K', 1 ) and a[0][1][0] == 'F' and a[0][1][1] == B and a[0][1][2].endswith( 'symbolic.length' )
+                                   and a[0][2][0] == 'V' and a[0][2][1] == 'string' and dict( a[0][2][3] ).get( 'limit', '' ).endswith( 'symbolic.length' ) for a in acc ) \
+        and sorted( len( a[0] ) for a in acc ) == [ 3, 4 ] and [ a for a in acc if len( a[0] ) == 4 ][0][0][3] == ( 'K', 1 ) \
+        and [ a for a in acc if len( a[0] ) == 4 ][0][1].get( 'odd' ) is True
+    if ok:
+        res.ok( src, L( pseg.site[1] ), 'opcode 0x91: drop 1, B length, string( limit=.length ), pad 1 iff odd' )
+    else:
+        res.bad( src, L( pseg.site[1] ), 'opcode 0x91 parses as %s' % shapes, 'ANSI extended symbolic: 0x91, length octet, that many characters, one pad octet iff the length is odd' )
+    # --- port segments
+    for lo, hi, addr in (( 0x01, 0x0F, False ), ( 0x11, 0x1F, True )):
+        missing = [ op for op in range( lo, hi + 1 ) if op not in table ]
+        if missing:
+            res.bad( src, L( pseg.site[1] ), 'port opcodes without a transition: %s' % [ hex( x ) for x in missing ], 'every port number 1..14 and the extended marker 15 must be parseable' )
+            continue
+        ref = sorted( show( table[lo] ))
+        same = all( sorted( show( table[op] )) == ref for op in range( lo, hi + 1 ))
+        acc = table[lo]
+        if not addr:
+            # [ B port, ( H port if extended ), B link ]
+            want_shapes = { ( 'B:port', 'B:link' ), ( 'B:port', 'H:port', 'B:link' ) }
+            got = { tuple(( a[1][1] + ':' + a[2].split( '.' )[-1] ) for a in atoms ) for atoms, l, e in acc }
+            good = same and got == want_shapes
+            desc = 'port 0x%02X-0x%02X: B port, [H extended port], B link' % ( lo, hi )
+        else:
+            got = set()
+            for atoms, l, e in acc:
+                got.add( tuple(( a[1][1] + ':' + '.'.join( a[2].split( '.' )[-2:] ) if a[0] == 'F' else 'pad' if a[0] == 'K' else 'string' ) for a in atoms ))
+            want_shapes = { ( 'B:seg.port', 'B:link.length', 'string' ), ( 'B:seg.port', 'B:link.length', 'string', 'pad' ),
+                            ( 'B:seg.port', 'B:link.length', 'H:seg.port', 'string' ), ( 'B:seg.port', 'B:link.length', 'H:seg.port', 'string', 'pad' ) }
+            good = same and got == want_shapes
+            desc = 'port 0x%02X-0x%02X: B port, B link length, [H extended port after the length], address string, [pad iff odd]' % ( lo, hi )
+        for op in range( lo, hi + 1 ):
+            if good:
+                res.ok( src, L( pseg.site[1] ), 'opcode 0x%02X: %s' % ( op, desc.split( ': ', 1 )[1] ), nontrivial=( op == lo ))
+            else:
+                res.bad( src, L( pseg.site[1] ), 'opcode 0x%02X parses as %s' % ( op, sorted( got )), desc )
+                break
+    # --- size / pad / single
+    for cname, padsize, single in (( 'EPATH', False, False ), ( 'EPATH_padded', True, False ), ( 'EPATH_single', False, True ), ( 'route_path', True, False )):
+        mm = g.machines.get( cname )
+        if mm is None:
+            raise AnalysisError( '%s machine not extracted' % cname )
+        init = mm.sub_initial()
+        if g.class_const( cname, 'PADSIZE' ) != padsize or g.class_const( cname, 'SINGLE' ) != single:
+            res.bad( src, L( g.classes[cname][0].lineno ), '%s PADSIZE=%r SINGLE=%r' % ( cname, g.class_const( cname, 'PADSIZE' ), g.class_const( cname, 'SINGLE' )),
+                     '%s is defined as PADSIZE=%r SINGLE=%r' % ( cname, padsize, single ))
+            continue
+        if single:
+            good = init.cls == 'dfa' and init.kw.get( 'limit' ) is None
+            d = 'a single segment, no size'
+        else:
+            nxt = [ t for s, t, d_ in g.edges_of( init ) if t is not None ]
+            if padsize:
+                good = init.isa( 'USINT' ) and len( nxt ) == 1 and nxt[0].isa( 'octets_drop' ) and nxt[0].kw.get( 'repeat' ) == 1 \
+                    and any( t is not None and t.cls == 'dfa' and t.kw.get( 'limit' ) is not None for s, t, d_ in g.edges_of( nxt[0] ))
+                d = 'USINT size (words), one pad octet, segments limited by size'
+            else:
+                good = init.isa( 'USINT' ) and len( nxt ) == 1 and nxt[0].cls == 'dfa' and nxt[0].kw.get( 'limit' ) is not None
+                d = 'USINT size (words), segments limited by size'
+        if good:
+            res.ok( src, L( g.classes[cname][0].lineno ), '%s parser: %s' % ( cname, d ))
+        else:
+            res.bad( src, L( g.classes[cname][0].lineno ), '%s parser head' % cname, '%s must parse %s' % ( cname, d ))
+    init_fn = src.get( 'EPATH.__init__' )
+    si = [ f for f in ast.walk( init_fn ) if isinstance( f, ast.FunctionDef ) and f.name == 'size_init' ]
+    if si and pfind( si[0], "_o = data[path + '..size'] * 2" ) and [ r for r in ast.walk( si[0] ) if isinstance( r, ast.Return ) and isinstance( r.value, ast.Name ) ]:
+        res.ok( src, si[0], 'size limit = size * 2 octets (size is in words)' )
+    else:
+        res.bad( src, init_fn, 'size_init', 'the segment limit must be the parsed size (words) times 2' )
+    # --- producer
+    pr = src.get( 'EPATH.produce' )
+    rets = [ r for r in pr.body if isinstance( r, ast.Return ) ]
+    if rets and pmatch( rets[-1].value, "USINT.produce( len( result ) // 2 ) + ( b'\\x00' if cls.PADSIZE else b'' ) + result" ):
+        res.ok( src, rets[-1], 'produce: USINT( len // 2 ) + pad iff PADSIZE + segments' )
+    else:
+        res.bad( src, rets[-1] if rets else pr, rets[-1].value if rets else 'return', 'the produced size must be len( segments ) // 2 words, followed by one pad octet iff PADSIZE' )
+    sing = [ i for i in ast.walk( pr ) if isinstance( i, ast.If ) and pmatch( i.test, 'cls.SINGLE' ) and any( pmatch( b, 'return result' ) for b in i.body ) ]
+    if sing:
+        res.ok( src, sing[0], 'produce: SINGLE returns the bare segment' )
+    else:
+        res.bad( src, pr, 'EPATH.produce SINGLE', 'a single-segment EPATH is produced without a size' )
+    # numeric chain
+    chain = [ i for i in ast.walk( pr ) if isinstance( i, ast.If ) and pmatch( i.test, 'segval <= 255' ) ]
+    if len( chain ) != 1:
+        raise AnalysisError( 'EPATH.produce: numeric width chain not found' )
+    node = chain[0]
+    rows = []
+    while isinstance( node, ast.If ):
+        rows.append( node )
+        node = node.orelse[0] if len( node.orelse ) == 1 and isinstance( node.orelse[0], ast.If ) else None
+    expect = [ ( 'segval <= 255', [ 'USINT.produce( segtyp )', 'USINT.produce( segval )' ], 8 ),
+               ( 'segval <= 65535', [ 'USINT.produce( segtyp + 1 )', 'USINT.produce( 0 )', 'UINT.produce( segval )' ], 16 ),
+               ( "segval <= 4294967295 and segnam == 'element'", [ 'USINT.produce( segtyp + 2 )', 'USINT.produce( 0 )', 'UDINT.produce( segval )' ], 32 ) ]
+    for i, ( test, stmts, bits ) in enumerate( expect ):
+        if i >= len( rows ):
+            res.bad( src, chain[0], 'EPATH.produce numeric chain', 'no branch produces %d-bit logical segments' % bits )
+            continue
+        r = rows[i]
+        got = [ s.value for s in r.body if isinstance( s, ast.AugAssign ) and dotted( s.target ) == 'result' ]
+        if pmatch( r.test, test ) and len( got ) == len( stmts ) and all( pmatch( gexp, pat ) for gexp, pat in zip( got, stmts )):
+            res.ok( src, r, 'produce %d-bit: %s' % ( bits, ', '.join( stmts )))
+        else:
+            res.bad( src, r, 'if %s: %s' % ( norm_text( r.test ), [ norm_text( x ) for x in got ] ),
+                     'a %d-bit logical segment is %s under the test %s' % ( bits, ', '.join( stmts ), test ))
+    # symbolic branch
+    sym = [ i for i in ast.walk( pr ) if isinstance( i, ast.If ) and pmatch( i.test, "segnam == 'symbolic'" ) ]
+    if sym:
+        got = [ norm_text( s ) for s in sym[0].body ]
+        body = sym[0].body
+        ok = bool( pfind( sym[0], 'result += USINT.produce( segtyp )' )) and bool( pfind( sym[0], 'result += USINT.produce( seglen )' )) \
+            and bool( pfind( sym[0], 'seglen = len( encoded )' )) and bool( pfind( sym[0], 'result += encoded' )) \
+            and any( isinstance( b, ast.If ) and pmatch( b.test, 'seglen % 2' ) and ( pfind( b, 'result += USINT.produce( 0 )' ) or pfind( b, "result += b'\\x00'" )) for b in body )
+        order = [ i for i, s in enumerate( body ) if isinstance( s, ast.AugAssign ) ]
+        if ok and isinstance( body[-1], ast.Break ):
+            res.ok( src, sym[0], 'produce symbolic: opcode, length, characters, pad iff odd' )
+        else:
+            res.bad( src, sym[0], 'symbolic branch %s' % got[:6], 'symbolic segment = USINT opcode, USINT length, encoded characters, one zero pad iff the length is odd' )
+    else:
+        res.bad( src, pr, 'EPATH.produce', 'symbolic segments are not produced' )
+    # port branch
+    prt = [ i for i in ast.walk( pr ) if isinstance( i, ast.If ) and pmatch( i.test, "segnam == 'port'" ) ]
+    if prt:
+        p = prt[0]
+        split = pfind( p, '( port, pext ) = ( seg.port, 0 ) if seg.port < 15 else ( 15, seg.port )' )
+        intb = [ i for i in ast.walk( p ) if isinstance( i, ast.If ) and pmatch( i.test, 'type( seg.link ) is int' ) ]
+        good = bool( split ) and bool( intb )
+        if good:
+            ib, ab = intb[0].body, intb[0].orelse
+            def appended( stmts ):
+                out = []
+                for s in stmts:
+                    if isinstance( s, ast.AugAssign ) and dotted( s.target ) == 'result':
+                        out.append( txt( s.value ))
+                    elif isinstance( s, ast.If ):
+                        out.append( 'if(' + txt( s.test ) + '){' + ';'.join( appended( s.body )) + '}' )
+                return out
+            want_i = [ 'USINT.produce(port)', 'if(pext){UINT.produce(pext)}', 'USINT.produce(seg.link)' ]
+            want_a = [ 'USINT.produce(port|16)', 'USINT.produce(len(encoded))', 'if(pext){UINT.produce(pext)}', 'encoded' ]
+            ga = appended( ab )
+            padok = len( ga ) == 5 and ga[4] in ( "if(len(encoded)%2){b'\\x00'}", "if(len(encoded)%2){USINT.produce(0)}" )
+            if appended( ib ) == want_i and ga[:4] == want_a and padok:
+                res.ok( src, p, 'produce port: numeric [port, ext?, link]; address [port|0x10, len, ext?, address, pad iff odd]' )
+            else:
+                res.bad( src, p, 'port branch: %s / %s' % ( appended( ib ), ga ), 'port segment layout: numeric link = port, [extended port], link; address link = port|0x10, length, [extended port], address, pad iff odd' )
+        else:
+            res.bad( src, p, 'port branch', 'ports >= 15 must be emitted as the extended marker 0x0F followed by the 16-bit port' )
+    else:
+        res.bad( src, pr, 'EPATH.produce', 'port segments are not produced' )
+    return res
+
+
+# ---------------------------------------------------------------------------------------- T-NCP (C01)
+
+@rule( 'T-NCP', props=( 'C01', 'C14' ), floor=10 )
+def t_ncp( ctx ):
+    """defaults.Connection: encode shifts = decode shifts/masks = the CIP Network Connection Parameter bit-fields; Large = the same fields 16 bits up with a 16-bit size"""
+    res = Result( 'T-NCP' )
+    src = ctx.src( 'server/enip/defaults.py' )
+    ini = src.get( 'Connection.__init__' ); dec = src.get( 'Connection.decoding' )
+    enc_assign = [ s for s in ast.walk( ini ) if isinstance( s, ast.Assign ) and dotted( s.targets[0] ) == 'self._NCP' and isinstance( s.value, ast.BinOp ) ]
+    if len( enc_assign ) != 1:
+        raise AnalysisError( 'Connection.__init__: NCP encoding expression not found' )
+    enc = enc_assign[0].value
+    shifts = {}
+    for n in ast.walk( enc ):
+        if isinstance( n, ast.BinOp ) and isinstance( n.op, ast.LShift ):
+            sh = try_fold( n.right )
+            m = pmatch( n.left, '_d if _f is None else _f' )
+            if m is not None and isinstance( sh, int ) and isinstance( m['_f'], ast.Name ):
+                shifts[m['_f'].id] = sh
+    large_shift = [ n for n in ast.walk( enc ) if isinstance( n, ast.BinOp ) and isinstance( n.op, ast.LShift )
+                    and ( pmatch( n.right, '16 if self._large else 0' ) or pmatch( n.right, '0 if not self._large else 16' )) ]
+    size_add = pmatch( enc, '_hi + ( size or _dflt )' )
+    for f, ( sh, mask ) in sorted( spec.NCP_FIELDS_SMALL.items() ):
+        if f == 'size':
+            continue
+        if shifts.get( f ) == sh:
+            res.ok( src, enc_assign[0], 'encode: %s << %d' % ( f, sh ))
+        else:
+            res.bad( src, enc_assign[0], 'encode: %s << %r' % ( f, shifts.get( f )), 'CIP NCP field %s occupies bits %d..' % ( f, sh ))
+    if large_shift and size_add is not None:
+        res.ok( src, enc_assign[0], 'encode: parameter bits << 16 when large; size added in the low bits' )
+    else:
+        res.bad( src, enc_assign[0], 'encode: large shift / size', 'a Large Forward Open NCP is the same parameter bits 16 bits up, with the size in the low 16 bits' )
+    # decode
+    kws = {}
+    for c in ast.walk( dec ):
+        if is_call_to( c, 'dotdict' ) and c.keywords:
+            kws = { k.arg: k.value for k in c.keywords }
+    if not kws:
+        raise AnalysisError( 'Connection.decoding: dotdict( field=... ) not found' )
+    for f, ( sh, mask ) in sorted( spec.NCP_FIELDS_SMALL.items() ):
+        e = kws.get( f )
+        if e is None:
+            res.bad( src, dec, 'decoding lacks %s' % f, 'every NCP field must be decoded' ); continue
+        if f == 'size':
+            m = pmatch( e, 'self._NCP & ( _l if self._large else _s )' )
+            if m is not None and try_fold( m['_l'] ) == spec.NCP_FIELDS_LARGE['size'][1] and try_fold( m['_s'] ) == mask:
+                res.ok( src, e, 'decode: size = NCP & ( 0xFFFF if large else 0x01FF )' )
+            else:
+                res.bad( src, e, 'decode size: ' + norm_text( e ), 'size is the low 9 bits (small) / 16 bits (large)' )
+            continue
+        m = pmatch( e, '_m & self._NCP >> ( _s + ( 16 if self._large else 0 ))' ) or pmatch( e, '( self._NCP >> ( _s + ( 16 if self._large else 0 ))) & _m' )
+        if m is not None and try_fold( m['_m'] ) == mask and try_fold( m['_s'] ) == sh:
+            res.ok( src, e, 'decode: %s = %d-bit field at bit %d (+16 when large)' % ( f, bin( mask ).count( '1' ), sh ))
+        else:
+            res.bad( src, e, 'decode %s: %s' % ( f, norm_text( e )), 'CIP NCP field %s is mask 0x%X at bit %d (+16 when large)' % ( f, mask, sh ))
+        if shifts.get( f ) is not None and m is not None and try_fold( m['_s'] ) != shifts.get( f ):
+            res.bad( src, e, 'decode %s shift %r vs encode shift %r' % ( f, try_fold( m['_s'] ), shifts.get( f )), 'encode and decode disagree' )
+    # large inference
+    if pfind( ini, 'self._large = bool( size and size > 511 ) or bool( NCP and NCP > 65535 )' ):
+        res.ok( src, ini, 'large inferred from size > 0x1FF or NCP > 0xFFFF' )
+    else:
+        res.bad( src, ini, 'large inference', 'without an explicit flag, Large is inferred from size > 0x1FF or NCP > 0xFFFF' )
+    return res
+
+
+# ---------------------------------------------------------------------------------------- L-SPEC (C14, C01)
+
+DATA_KINDS = ( 'typed_data', 'raw', 'elements', 'member', 'string' )
+
+
+def spec_atom_match( sa, a, as_producer=False ):
+    """spec atom sa vs extracted atom a"""
+    kind = sa[0]
+    if kind == 'pad':
+        return a[0] == 'K' and a[1] == sa[1]
+    if kind == 'repeat':
+        if a[0] != 'R':
+            return False
+        # element names inside a repetition are list positions, not field names: compare formats only
+        return any( len( sub ) == len( sa[1] ) and all( spec_atom_match( ( x[0], '' ) if x[0] not in ( 'pad', 'repeat' ) else x, y, as_producer )
+                                                        for x, y in zip( sa[1], sub )) for sub in a[2] )
+    if kind == 'data':
+        return a[0] == 'V' and a[1] in DATA_KINDS
+    if kind in ( 'EPATH', 'EPATH_padded', 'route_path', 'status', 'CPF', 'SSTRING', 'STRING' ):
+        return a[0] == 'V' and a[1] == kind
+    # fixed field
+    if a[0] != 'F' or a[1] != spec.fmt_canon( kind ):
+        return False
+    p = a[2]
+    if isinstance( p, tuple ):
+        return as_producer			# LEN( ... ) / constants on the producer side carry no data path
+    want = sa[1].replace( '_', '.' )
+    have = ( p or '' ).replace( '_', '.' )
+    if not want:
+        return True
+    return have == want or have.endswith( '.' + want ) or ( want.split( '.' )[-1] in have.split( '.' ) and kind in ( '<H', ) and sa[1] in ( 'offset', 'attribute', 'ext', 'number' ))
+
+
+def spec_seq_match( sseq, atoms, as_producer=False ):
+    """spec sequence vs extracted atoms (guard markers ignored; possibly-empty variable parts of the extracted side may be absent in the spec)"""
+    atoms = [ a for a in atoms if a[0] != 'G' ]
+    memo = {}
+    def m( i, j ):
+        if ( i, j ) in memo: return memo[( i, j )]
+        if i == len( sseq ) and j == len( atoms ):
+            r = True
+        else:
+            r = False
+            if i < len( sseq ) and j < len( atoms ) and spec_atom_match( sseq[i], atoms[j], as_producer ):
+                r = m( i + 1, j + 1 )
+            if not r and j < len( atoms ) and atoms[j][0] == 'V' and atoms[j][1] in DATA_KINDS and not ( i < len( sseq ) and sseq[i][0] == 'data' ):
+                r = m( i, j + 1 )
+            if not r and i < len( sseq ) and sseq[i][0] == 'data' and not ( j < len( atoms ) and atoms[j][0] == 'V' and atoms[j][1] in DATA_KINDS ):
+                r = m( i + 1, j )			# an empty payload
+        memo[( i, j )] = r
+        return r
+    return m( 0, 0 )
+
+
+def show_spec( sseq ):
+    out = []
+    for a in sseq:
+        if a[0] == 'pad': out.append( 'pad*%d' % a[1] )
+        elif a[0] == 'repeat': out.append( 'repeat{ %s }' % show_spec( a[1] ))
+        else: out.append( '%s:%s' % ( a[0], a[1] ))
+    return ' '.join( out )
+
+
+@rule( 'L-SPEC', props=( 'C14', 'C01' ), floor=40 )
+def l_spec( ctx ):
+    """for the messages an independent client uses: the extracted parser accepts the CIP-spec layout field for field, and the reply producers emit exactly a spec layout"""
+    res = Result( 'L-SPEC' )
+    g = grammar_of( ctx )
+    layouts = { ( e['cls'], e['number'] ): e for e in service_layouts( ctx ) }
+    for key, sseqs in sorted( spec.MESSAGE_LAYOUTS.items(), key=lambda kv: str( kv[0] )):
+        if key[0] == 'service':
+            e = layouts.get(( key[1], key[2] ))
+            label = '%s service 0x%02X' % ( key[1], key[2] )
+            if e is None:
+                res.bad( ctx.src( 'server/enip/device.py' ), None, label, 'no parser is registered for a service an independent client uses', func=key[1] )
+                continue
+            Q = e['Q']; site_src = ctx.src( FILES[e['site'][0]] ); line = e['site'][1]
+        else:
+            m = g.machines.get( key[1] )
+            label = 'class %s' % key[1]
+            if m is None:
+                raise AnalysisError( 'machine %s not extracted' % key[1] )
+            Q = resolve_struct_lits( ParserLayout( g ).seqs( m.sub_initial(), '' ))
+            site_src = ctx.src( FILES[m.site[0]] ); line = g.classes[key[1]][0].lineno
+        for sseq in sseqs:
+            if any( spec_seq_match( sseq, q.atoms ) for q in Q ):
+                res.ok( site_src, L( line ), '%s: parser accepts spec layout [%s]' % ( label, show_spec( sseq )))
+            else:
+                closest = max( Q, key=lambda q: sum( 1 for x, y in zip( sseq, [ a for a in q.atoms if a[0] != 'G' ] ) if spec_atom_match( x, y )))
+                res.bad( site_src, L( line ), '%s: spec layout [%s] is not accepted' % ( label, show_spec( sseq )),
+                         'closest parser layout [%s]: a reference encoding would be mis-parsed' % show_seq( closest ), func=label )
+    for cname, num in spec.REPLY_PRODUCERS:
+        e = layouts.get(( cname, num ))
+        if e is None or e['sel'] is None:
+            res.bad( ctx.src( 'server/enip/device.py' ), None, '%s 0x%02X reply producer' % ( cname, num ), 'no producer branch', func=cname + '.produce' )
+            continue
+        sseqs = spec.MESSAGE_LAYOUTS[( 'service', cname, num )]
+        seen_atoms = set()
+        for p in e['P']:
+            if p.atoms in seen_atoms:
+                continue
+            seen_atoms.add( p.atoms )
+            if any( spec_seq_match( sseq, p.atoms, as_producer=True ) for sseq in sseqs ):
+                res.ok( e['src'], L( p.trace[0][0] if p.trace and isinstance( p.trace[0][0], int ) else e['pfn'].lineno ),
+                        '%s 0x%02X: produced reply [%s] is a spec layout' % ( cname, num, show_seq( p )))
+            else:
+                res.bad( e['src'], L( p.trace[0][0] if p.trace and isinstance( p.trace[0][0], int ) else e['pfn'].lineno ),
+                         '%s 0x%02X: produced reply [%s] is no spec layout' % ( cname, num, show_seq( p )),
+                         'spec layouts: %s' % ' | '.join( '[' + show_spec( s ) + ']' for s in sseqs ), func=cname + '.produce' )
     return res
